@@ -2,6 +2,7 @@ import CalicoVerif.Proofs.C01Comp
 import CalicoVerif.Proofs.C01Seq
 import CalicoVerif.Proofs.C01Rs
 import CalicoVerif.Proofs.C01Arc
+import CalicoVerif.Proofs.C01Prof
 /-!
 C01 — Felix's computed dataplane state depends only on current datastore state.
 
@@ -23,6 +24,9 @@ What is PROVED (all histories, all flush placements):
 * `arc_policy_matches_eq_eval_partial` — the ARC policy path inside the composed graph: after ANY
   history, `policyIDToEndpointKeys` holds (policy, local endpoint) exactly when the policy's selector
   evaluates to true on the endpoint's effective labels (C07's `Inv` carried through the whole graph);
+* `arc_profile_table_eq_spec_partial` — the ARC profile path inside the composed graph IS the C05 model
+  run on the projected history, so C05's `view_eq_spec` holds for the graph: the rule scanner's profile
+  table (real rules / deny stand-in / absent) is a function of the current inputs only;
 * `calc_history_independent_partial` — the end-to-end statement `accumulate (run h) = fresh (lastState h)`,
   derived from Theorem A under the explicit, NAMED upstream contract `UpstreamContract` (protocol
   validity + "declared = fresh" per component).  The contract is what the remaining node theorems must
@@ -120,6 +124,27 @@ theorem arc_policy_matches_eq_eval_partial (H : IdFn) (s : Bool) (h : List HStep
   have hi := arcInv_run H h (arcInv_new s)
   rw [hi.mirrors (n, i)]
   exact hi.idx.sound (n, i)
+
+/-- ARC PROFILE PATH inside the composed graph (all histories, all flush placements): the table of
+active profiles the rule scanner has been told (`C05.view` of every OnProfileActive/Inactive made so
+far) maps a profile to its current rules — or to the deny stand-in if it has none — exactly when some
+stored local endpoint lists it, and has no entry otherwise.  Proved by showing that the graph's profile
+path is the C05 model run on the history's projection (`arcProf_run`) and applying C05's theorem. -/
+theorem arc_profile_table_eq_spec_partial (H : IdFn) (s : Bool) (h : List HStep) (p : String) :
+    let a := (run H (Graph.new s) h).1.arcProf
+    (C05.referenced a p → C05.alGet p (C05.view a.out) = some (C05.outOf a p)) ∧
+    (¬ C05.referenced a p → C05.alGet p (C05.view a.out) = none) := by
+  have hrun : (run H (Graph.new s) h).1.arcProf =
+      C05.runRaw (C05.Arc.new RulesIn) ((profUpds h).map rawOf) := by
+    rw [arcProf_run]
+    unfold C05.runRaw
+    rw [List.map_map]
+    have : (C05.filter ∘ rawOf) = id := by funext u; exact filter_rawOf u
+    rw [this, List.map_id]
+    rfl
+  simp only []
+  rw [hrun]
+  exact C05.view_eq_spec _ p
 
 /-! ### non-vacuity: a concrete history (policy selecting a local endpoint through an inherited
 profile label, an IP set with members, reverts and a spurious delete, flushes in between) for which
